@@ -17,11 +17,13 @@ def regenerate() -> dict:
     root = src_root()
     control = root / "engine" / "control.py"
     engine_init = root / "engine" / "__init__.py"
+    context = root / "engine" / "context.py"
     fields = {"max_failures": "optnat", "_failures_counter": "nat", "has_reached_the_failure_limit": "bool", "is_interrupted": "bool"}
     parts = [
         "(* GENERATED on every run by harness/props/c12_gen.py from the Python source - do not edit.\n"
-        f"   engine/control.py sha256 {translate.source_hash(control)}, engine/__init__.py sha256 {translate.source_hash(engine_init)} *)\n"
-        "From Coq Require Import Arith Bool.\nFrom Verif Require Import C11.Model_C11.\n\n"
+        f"   engine/control.py sha256 {translate.source_hash(control)}, engine/__init__.py sha256 {translate.source_hash(engine_init)},\n"
+        f"   engine/context.py sha256 {translate.source_hash(context)} *)\n"
+        "From Coq Require Import Arith Bool List.\nFrom Verif Require Import C11.Model_C11.\n\n"
     ]
     parts.append(translate.translate_method(control.read_text(), "ExecutionControl", "count_failure", fields,
                                             reads=["max_failures", "_failures_counter", "has_reached_the_failure_limit"],
@@ -32,7 +34,12 @@ def regenerate() -> dict:
                                             returns_value=True))
     parts.append("\n")
     parts.append(translate.translate_enum_rank(engine_init.read_text(), "_STATUS_ORDER", "Status", "gen_srank", "status"))
+    # the outcome cache of unique_inputs (EngineContext.cache_outcome / get_cached_outcome)
+    parts.append("\n" + translate.MAP_PRELUDE + "\n")
+    parts.append(translate.translate_map_method(context.read_text(), "EngineContext", "cache_outcome", "outcome_cache", "case", "outcome", "gen_cache_outcome"))
+    parts.append("\n")
+    parts.append(translate.translate_map_method(context.read_text(), "EngineContext", "get_cached_outcome", "outcome_cache", "case", None, "gen_get_cached_outcome"))
     text = "".join(parts)
     path = core.THEORIES / "C12" / "Gen_C12.v"
     changed = translate.write_if_changed(path, text)
-    return {"file": str(path), "changed": changed, "sources": [str(control), str(engine_init)]}
+    return {"file": str(path), "changed": changed, "sources": [str(control), str(engine_init), str(context)]}
